@@ -18,3 +18,20 @@ Theorem C01_no_applicable_no_run : forall sub hasm chk fresh ms k cs,
   (lookup sub hasm chk fresh ms k = ONoMethod <-> forall m, In m ms -> applicable_ty sub hasm chk fresh m k = false).
 Proof. exact lookup_nomethod_iff. Qed.
 Print Assumptions C01_no_applicable_no_run.
+
+(* the same through call_next / f.next: whatever the continuation lookup returns is registered and applicable to the
+   arguments it is about to receive *)
+From OvldV Require Import Proofs.ResolveNext.
+Theorem C01_next_is_applicable : forall sub hasm chk fresh ms k caller i,
+  lookup_next sub hasm chk fresh ms caller k = ORun i ->
+  exists m, In m ms /\ m_id m = i /\ applicable_ty sub hasm chk fresh m k = true.
+Proof. exact next_run_applicable. Qed.
+Print Assumptions C01_next_is_applicable.
+
+(* value level: a handler selected by a value-dependent rank has all its generated checks true, and a generated check is
+   isinstance (Props/C10.v: C10_chain_sound, C10_count_sound, C10_emit_is_instance) *)
+From OvldV Require Import Model.Dep Proofs.DepFacts.
+Theorem C01_value_checks_are_isinstance : forall sub hasm chk utab, (forall c, sub c C_OBJECT = true) ->
+  forall t v, prod_tuple t = true -> plain_val sub v = true -> emit_ok sub hasm chk utab t v.
+Proof. exact emit_is_instance. Qed.
+Print Assumptions C01_value_checks_are_isinstance.
